@@ -1,18 +1,24 @@
-"""C09 (flatten removes all hierarchy and preserves leaf-level connectivity): bounded stand-in on spydrnet.flatten.flatten after uniquify."""
-from props import _designb
-LEVEL = 'exploration'
+"""C09 (flatten removes all hierarchy and preserves leaf-level connectivity): contract on the leaf test Definition.is_leaf (pyvc suite
+'flat') + bounded stand-in on spydrnet.flatten.flatten after uniquify."""
+from props import _designb, _pv
+LEVEL = 'other'
 PID = 'C09'
 RULE = ('distinct = distinct abstract design (hash of the AD); non-trivial = hierarchy depth >= 2 and at least one net crossing an '
         'instance-port boundary (hierarchical pin wired on both sides)')
 
 
 def run(rep, tier, seed):
-    rep.explanation = 'bounded stand-in only: only leaves remain, one per leaf path with slash-joined name, same definition object and data, partition of leaf pin bits and top port bits (elaboration before vs direct reading after), Inv'
+    failed = _pv.run_suite(rep, PID, 'flat', tier)
+    rep.explanation = 'helper level (P): Definition.is_leaf() is True exactly for a definition without children and without cables, writes nothing and does not raise, for all heaps satisfying Inv -- the test by which flatten keeps an instance as a primitive or dissolves it; _bring_to_top, _redo_connections and the work-list: bounded stand-in: only leaves remain, one per leaf path with slash-joined name, same definition object and data, partition of leaf pin bits and top port bits (elaboration before vs direct reading after), Inv'
     rep.assumptions = ['Tier B: everything outside the stated bounds is unexplored (DESIGN.md 8.12)',
                        'oracles (canon / elab / occurrence enumeration / Inv) read public attributes only and are calibrated against an AD-level elaborator']
     fails = _designb.run_designs(rep, PID, tier, seed, RULE, extra_bounds={'precondition': 'design made unique by uniquify(); cases where that fails are skipped and counted in bounded_stats'})
     _designb.report_failures(rep, PID, fails)
+    _pv.report_failed(rep, failed)
+    rep.trusted = list(getattr(rep, 'trusted', []) or []) + ['pyvc VC generator (DESIGN.md 3), z3/cvc5', 'IR heap model of pyvc/logic.py']
+    rep.assumptions.append('helper contract: the netlist satisfies Inv')
 
 
 def replay(path):
+    if _pv.replay_obligation(path): return 0
     return _designb.replay(path, PID)
